@@ -220,6 +220,13 @@ def schedules(quick):
         ("lib-broken-then-fixed-in-lib", "", [(0, "lib", 1, "inplace"), (400, "lib-invalid", 2, "inplace"), (400, "lib", 3, "inplace")]),
         ("lib-broken-twice-then-fixed-in-lib", "", [(0, "model", 1, "inplace"), (400, "lib-invalid", 2, "rename"), (300, "lib-invalid", 3, "inplace"), (400, "lib", 4, "rename")]),
         ("single-import-lib-broken-then-fixed-in-lib", "", [(0, "lib", 1, "inplace"), (400, "lib-invalid", 2, "inplace"), (400, "lib", 3, "inplace")]),
+        # "dangling-": for a while an import names a directory that does not exist (the imported package is moved away, deleted, or the path in the manifest is
+        # half typed) and the package is saved in that state; afterwards everything is put back and saved again
+        ("dangling-import-dir-moved-away-and-back", "", [(0, "model", 1, "inplace"), (300, "lib-dir-away", 2, "inplace"), (200, "model", 3, "inplace"), (400, "lib-dir-back", 4, "inplace"), (300, "model", 5, "inplace")]),
+        ("dangling-import-dir-deleted-and-recreated", "", [(0, "model", 1, "inplace"), (300, "lib-dir-delete", 2, "inplace"), (200, "model", 3, "rename"), (400, "lib-dir-recreate", 4, "inplace"), (300, "model", 5, "inplace"), (400, "lib", 6, "inplace")]),
+        ("dangling-import-half-typed-path", "", [(0, "model", 1, "inplace"), (300, "manifest-half-path", 2, "inplace"), (400, "manifest-restore", 3, "inplace"), (300, "model", 4, "inplace")]),
+        ("dangling-import-of-import-moved-away-and-back", "", [(0, "model", 1, "inplace"), (300, "base-dir-away", 2, "inplace"), (200, "lib", 3, "inplace"), (400, "base-dir-back", 4, "inplace"), (300, "model", 5, "rename")]),
+        ("single-import-dangling-dir-moved-away-and-back", "", [(0, "model", 1, "inplace"), (300, "lib-dir-away", 2, "inplace"), (200, "model", 3, "inplace"), (400, "lib-dir-back", 4, "inplace"), (300, "model", 5, "inplace")]),
         # "override-": the watcher is started with -c overrides that differ from the manifest; the reference run gets the same overrides
         ("override-output-dir-then-saves", "", [(0, "model", 1, "inplace"), (400, "model", 2, "rename"), (400, "lib", 3, "inplace")]),
         ("override-then-invalid-then-valid", "", [(0, "model", 1, "inplace"), (300, "invalid", 2, "inplace"), (300, "model", 3, "inplace")]),
@@ -322,6 +329,21 @@ def run(ctx):
                     invalid_seen = True
                 elif kind == "lib-good-import":
                     save(os.path.join(root, "lib/_package.yml"), "namespace: Lib\nimports:\n  - ../base\n", how)
+                elif kind in ("lib-dir-away", "base-dir-away"):
+                    d = kind.split("-")[0]
+                    os.rename(os.path.join(root, d), os.path.join(root, d + "_moved_away"))
+                    invalid_seen = True
+                elif kind in ("lib-dir-back", "base-dir-back"):
+                    d = kind.split("-")[0]
+                    os.rename(os.path.join(root, d + "_moved_away"), os.path.join(root, d))
+                elif kind == "lib-dir-delete":
+                    shutil.rmtree(os.path.join(root, "lib"))
+                    invalid_seen = True
+                elif kind == "lib-dir-recreate":
+                    common.write_tree(root, {"lib/_package.yml": "namespace: Lib\n" + ("" if single else "imports:\n  - ../base\n"), "lib/lib.yml": lib_text if lib_text != LIB or not single else LIB_ALONE})
+                elif kind == "manifest-half-path":
+                    save(os.path.join(root, "main/_package.yml"), manifest(cur_outputs).replace("../lib", "../li"), how)
+                    invalid_seen = True
                 elif kind == "add-file":
                     save(os.path.join(root, "main/second.yml"), "SecondFile%d: !record\n  fields:\n    z: int\n" % v, how)
                     second = "SecondFile%d: !record\n  fields:\n    z: int\n" % v
